@@ -2,7 +2,7 @@
    A thread conforms to the table when each of its reads/writes is an instance (on some object o) of a
    non-exempt table entry and is made while holding at least the locks of o the entry lists.
    That real executions conform is what the translator is trusted for (and what the -race run samples). *)
-From V Require Import Model.C18_Table Model.C18_Conc.
+From V Require Import Model.C18_Table Model.C18_Conc Model.C18_Wait.
 
 Definition xname_of (a : access) : xname := (a_ty a, a_field a, match a_part a with Slot => false | Cont => true end).
 
@@ -25,3 +25,31 @@ Definition tguard (ex : list exemption) (accs : list access) (x : loc) : option 
   if xwrittenb ex accs (ty, f, c)
   then match guard_of ty f with Some g => Some (o, (ty, g)) | None => None end
   else None.
+
+(* ---- the wait-for graph of the table and the machine with waits (Model/C18_Wait.v) ----
+   A thread conforms to a wait-for graph (edges between the table's names of locks and groups) when every
+   acquisition and every wait it makes is an instance of edges of the graph: from each lock it holds there, and
+   from each group gs that covers it. That real goroutines conform to the graph generated from the source is,
+   again, what the translator is trusted for. *)
+Definition lstr (l : lname) : string := (fst l ++ "." ++ snd l)%string.
+Definition node_str (x : node) : string := match x with NLock l => lstr l | NGroup g => g end.
+Definition has_edge (es : list edge) (a b : string) : Prop := exists w, In (a, b, w) es.
+Definition gconforms (es : list edge) (gs : list group) (prog : list gev) : Prop :=
+  (forall p l r, prog = p ++ GE (Acq l) :: r \/ prog = p ++ GE (RAcq l) :: r ->
+     (forall h, In h (scan (evs p)) -> has_edge es (lstr (snd (fst h))) (lstr (snd l))) /\
+     (forall g, In g gs -> has_edge es (snd g) (lstr (snd l)))) /\
+  (forall p g r, prog = p ++ GWait g :: r ->
+     (forall h, In h (scan (evs p)) -> has_edge es (lstr (snd (fst h))) (snd g)) /\
+     (forall g', In g' gs -> has_edge es (snd g') (snd g))).
+(* the rank the table's graph induces on the machine's nodes *)
+Definition table_rank (es : list edge) (x : node) : nat := rank_of es (node_str x).
+
+(* ---- the part of the table of the pinned source (commit 5201509) that made the wait-for graph cyclic, kept by hand:
+   Shutdown waits for the cluster's WaitGroup holding shutdownLock; the goroutines of watchPeers and of ready(), which
+   the WaitGroup covers, take shutdownLock; ready() also calls Shutdown itself (as printed by Diag/C18.v on that tree) ---- *)
+Definition pinned_waits : list wait_site :=
+  [("ipfscluster.Cluster.Shutdown", ["ipfscluster.Cluster.shutdownLock"], "wg:ipfscluster.Cluster.wg", "cluster.go:779")]%string.
+Definition pinned_covers : list edge :=
+  [("wg:ipfscluster.Cluster.wg", "ipfscluster.Cluster.shutdownLock", "goroutine ipfscluster.Cluster.run cluster.go:587 > Cluster.watchPeers");
+   ("wg:ipfscluster.Cluster.wg", "ipfscluster.Cluster.shutdownLock", "goroutine ipfscluster.NewCluster cluster.go:205 > Cluster.ready");
+   ("wg:ipfscluster.Cluster.wg", "wg:ipfscluster.Cluster.wg", "goroutine ipfscluster.NewCluster cluster.go:205 > Cluster.ready > Cluster.Shutdown")]%string.
